@@ -16,7 +16,7 @@ typedef vp_string_t str_t;
 #ifndef CMAX
 #define CMAX 3
 #endif
-#define LOGN (N + CMAX + 2)
+#define LOGN ((SINK == 7 ? 2 * N : N) + CMAX + 2)     /* the Latin-1 string sink emits up to two bytes per input byte */
 #if SINK == 3 || SINK == 5
 typedef uint32_t unit_t;
 #elif SINK == 4
